@@ -11,7 +11,9 @@ PROP = dict(
                     "whitespace removed, random blanks / blank lines / comment lines / trailing comments / CR LF) and read back; nesting, "
                     "order, names, values and parent/prev links are compared; 40k / 500k further trees are written to a file and read 2-4 "
                     "times through one mpt::config_parser (open, read, reset or new open, read again; fresh or used result node), every "
-                    "pass compared the same way.  Exploration, not proof."),
+                    "pass compared the same way; before 2/5 of the reads set_format() calls with an unknown style character (must be refused "
+                    "and change nothing), in 1/3 of the cases an accepted format change on the used parser followed by a tree in the "
+                    "new style.  Exploration, not proof."),
         level_note=("trusts the renderer and comparison in harness/c09_tree.c, i.e. its reading of the doc comments of mpt_parse_format_pre/_enc/_sep, "
                     "mpt_parse_format and of examples/core/*.txt, *.lay, mpt.conf; gcc ASan/UBSan"),
         legs=[dict(name="c09_readback", memcheck=600, src=["c09_readback.c", "c09_tree.c"], libs=["mptcore"], batch=512,
@@ -31,7 +33,9 @@ PROP = dict(
                            "text:canonical": 10000, "text:compact": 10000, "text:noisy": 10000,
                            "monitor:values-compared": 1000000, "monitor:names-compared": 1000000,
                            "tree:depth>=3": 4000, "tree:with-value-250..260": 8000, "tree:with-value-65530..65540": 1000,
-                           "tree:last-top-level-element-is-option": 12000, "flags:config_parser-defaults": 3000})],
+                           "tree:last-top-level-element-is-option": 12000, "flags:config_parser-defaults": 3000,
+                           "monitor:trees-equal:read-after-refused-set_format": 35000, "monitor:trees-equal:after-format-change": 20000,
+                           "state:format-changed-on-used-parser": 8000, "config_parser::set_format": 90000})],
         rule=("case = (format string, section/option name flag sets, generated tree of sections, options and anonymous data); the tree is "
               "rendered canonically, compactly and with random decoration and each text is parsed into an empty root; non-trivial = "
               "the tree has at least 3 nodes and (except for the flat separated style) at least one section; distinct = 64-bit hash "
